@@ -9,6 +9,7 @@ package main
 // real SSA on that tree.
 
 import (
+	"encoding/json"
 	"fmt"
 	"go/types"
 	"reflect"
@@ -205,39 +206,51 @@ func (in *Interp) jsonEmpty(v Value) *Term {
 
 type jsonBlob struct{ tree Iface }
 
+type jsonDecoder struct {
+	src       *Str
+	strict    bool
+	useNumber bool
+}
+
 func init() {
 	extra := map[string]nativeModel{
 		"encoding/json.Marshal": func(in *Interp, _ *frame, a []Value) (Value, bool) {
 			obj := a[0].(Iface)
 			tree := in.jsonTree(obj, nil)
-			b := &Backing{E: []Value{}}
-			in.jsonBlobs[b] = &jsonBlob{tree: tree}
-			return Tuple{SliceV{B: b}, Iface{}}, true
+			return Tuple{in.newBlob(tree), Iface{}}, true
+		},
+		"encoding/json.MarshalIndent": func(in *Interp, _ *frame, a []Value) (Value, bool) {
+			return Tuple{in.newBlob(in.jsonTree(a[0].(Iface), nil)), Iface{}}, true
 		},
 		"encoding/json.NewDecoder": func(in *Interp, _ *frame, a []Value) (Value, bool) {
 			r := a[0].(Iface)
 			if p, ok := r.V.(PtrV); ok && p.R != nil {
-				if o, ok := p.R.Get().(Opaque); ok && o.Kind == "jsonreader" {
-					return PtrV{in.newCell(Opaque{Kind: "jsondecoder", Obj: o.Obj})}, true
+				if o, ok := p.R.Get().(Opaque); ok && o.Kind == "strings.Reader" {
+					return PtrV{in.newCell(Opaque{Kind: "jsondecoder", Obj: &jsonDecoder{src: o.Obj.(*Str)}})}, true
 				}
 			}
-			in.unsupported("json.NewDecoder on a reader without a model tree")
+			in.unsupported("json.NewDecoder on an unknown reader")
 			return nil, true
 		},
-		"(*encoding/json.Decoder).UseNumber": func(in *Interp, _ *frame, a []Value) (Value, bool) { return nil, true },
+		"(*encoding/json.Decoder).UseNumber": func(in *Interp, _ *frame, a []Value) (Value, bool) {
+			a[0].(PtrV).R.Get().(Opaque).Obj.(*jsonDecoder).useNumber = true
+			return nil, true
+		},
+		"(*encoding/json.Decoder).DisallowUnknownFields": func(in *Interp, _ *frame, a []Value) (Value, bool) {
+			a[0].(PtrV).R.Get().(Opaque).Obj.(*jsonDecoder).strict = true
+			return nil, true
+		},
 		"(*encoding/json.Decoder).Decode": func(in *Interp, _ *frame, a []Value) (Value, bool) {
-			o := a[0].(PtrV).R.Get().(Opaque)
-			blob := o.Obj.(*jsonBlob)
-			target := a[1].(Iface)
-			p, ok := target.V.(PtrV)
-			if !ok || p.R == nil {
-				in.unsupported("json Decode into %T", target.V)
-			}
-			if _, isIface := p.R.Get().(Iface); !isIface {
-				in.unsupported("json Decode into a typed value (only *interface{} is modelled)")
-			}
-			p.R.Set(blob.tree)
-			return Iface{}, true
+			d := a[0].(PtrV).R.Get().(Opaque).Obj.(*jsonDecoder)
+			return in.jsonUnmarshal(in.strToBytes(d.src), a[1].(Iface), d.strict, d.useNumber), true
+		},
+		"encoding/json.Unmarshal": func(in *Interp, _ *frame, a []Value) (Value, bool) {
+			return in.jsonUnmarshal(a[0].(SliceV), a[1].(Iface), false, false), true
+		},
+		"(reflect.StructTag).Get": func(in *Interp, _ *frame, a []Value) (Value, bool) {
+			tag := in.forceConc(a[0].(*Str), "StructTag.Get")
+			key := in.forceConc(a[1].(*Str), "StructTag.Get")
+			return concStr(in.tf, reflect.StructTag(tag).Get(key)), true
 		},
 		"(encoding/json.Number).Int64": func(in *Interp, _ *frame, a []Value) (Value, bool) {
 			s := in.forceConc(a[0].(*Str), "json.Number.Int64")
@@ -339,4 +352,325 @@ func (in *Interp) simpleSprintf(format string, args SliceV) (*Str, bool) {
 		return nil, false
 	}
 	return out, true
+}
+
+// ---- blobs: JSON documents travel as a token that names the tree -------------
+
+func (in *Interp) newBlob(tree Iface) SliceV {
+	in.blobList = append(in.blobList, &jsonBlob{tree: tree})
+	tok := fmt.Sprintf("\x00JSON#%d\x00", len(in.blobList)-1)
+	return in.strToBytes(concStr(in.tf, tok))
+}
+
+// blobOf finds the tree for a document: a token, or concrete JSON text (parsed
+// with the real encoding/json).
+func (in *Interp) blobOf(data SliceV) (Iface, bool) {
+	raw := make([]byte, data.Len)
+	for i := 0; i < data.Len; i++ {
+		t := data.B.E[data.Off+i].(IntV).T
+		if !t.IsConst() {
+			in.unsupported("json model: document with symbolic bytes")
+		}
+		raw[i] = byte(t.Val)
+	}
+	s := string(raw)
+	if strings.HasPrefix(s, "\x00JSON#") && strings.HasSuffix(s, "\x00") {
+		n, err := strconv.Atoi(s[len("\x00JSON#") : len(s)-1])
+		if err == nil && n >= 0 && n < len(in.blobList) {
+			return in.blobList[n].tree, true
+		}
+	}
+	var g interface{}
+	dec := json.NewDecoder(strings.NewReader(s))
+	dec.UseNumber()
+	if err := dec.Decode(&g); err != nil {
+		return Iface{}, false
+	}
+	return in.goToTree(g), true
+}
+
+func (in *Interp) goToTree(g interface{}) Iface {
+	jt := in.jt()
+	switch x := g.(type) {
+	case nil:
+		return Iface{}
+	case string:
+		return Iface{T: jt.str, V: concStr(in.tf, x)}
+	case bool:
+		return Iface{T: jt.boolean, V: in.tf.Bool(x)}
+	case json.Number:
+		return Iface{T: jt.number, V: concStr(in.tf, string(x))}
+	case []interface{}:
+		b := &Backing{E: make([]Value, len(x))}
+		for i, e := range x {
+			b.E[i] = in.goToTree(e)
+		}
+		return Iface{T: jt.slice, V: SliceV{B: b, Len: len(x), Cap: len(x)}}
+	case map[string]interface{}:
+		in.nextMap++
+		m := &MapV{KT: jt.str, VT: jt.iface, ID: in.nextMap}
+		keys := make([]string, 0, len(x))
+		for k := range x {
+			keys = append(keys, k)
+		}
+		sortStrings(keys)
+		for _, k := range keys {
+			m.seq++
+			m.Entries = append(m.Entries, &MapEntry{K: concStr(in.tf, k), V: in.goToTree(x[k]), Seq: m.seq})
+		}
+		return Iface{T: jt.mapT, V: m}
+	}
+	in.unsupported("json model: %T", g)
+	return Iface{}
+}
+
+func sortStrings(a []string) {
+	for i := 1; i < len(a); i++ {
+		for j := i; j > 0 && a[j] < a[j-1]; j-- {
+			a[j], a[j-1] = a[j-1], a[j]
+		}
+	}
+}
+
+// jsonUnmarshal: typed decoding of the document into *target.
+func (in *Interp) jsonUnmarshal(data SliceV, target Iface, strict, useNumber bool) Value {
+	tree, ok := in.blobOf(data)
+	if !ok {
+		return in.newError("invalid character looking for beginning of value")
+	}
+	p, isPtr := target.V.(PtrV)
+	pt, isPT := target.T.Underlying().(*types.Pointer)
+	if !isPtr || !isPT || p.R == nil {
+		return in.newError("json: Unmarshal(non-pointer)")
+	}
+	v, errMsg := in.jsonDecode(tree, pt.Elem(), p.R.Get(), strict, useNumber)
+	if errMsg != "" {
+		return in.newError(errMsg)
+	}
+	p.R.Set(v)
+	return Iface{}
+}
+
+func isRawMessage(t types.Type) bool {
+	n, ok := t.(*types.Named)
+	return ok && n.Obj().Name() == "RawMessage" && n.Obj().Pkg() != nil && n.Obj().Pkg().Path() == "encoding/json"
+}
+
+func jsonKindName(tree Iface, jt *jsonTypes) string {
+	switch {
+	case tree.T == nil:
+		return "null"
+	case types.Identical(tree.T, jt.str):
+		return "string"
+	case types.Identical(tree.T, jt.boolean):
+		return "bool"
+	case types.Identical(tree.T, jt.number):
+		return "number"
+	case types.Identical(tree.T, jt.slice):
+		return "array"
+	}
+	return "object"
+}
+
+// jsonDecode returns the decoded value (cur is the value already stored at the
+// target, kept where JSON says nothing) or an error message.
+func (in *Interp) jsonDecode(tree Iface, t types.Type, cur Value, strict, useNumber bool) (Value, string) {
+	tf := in.tf
+	jt := in.jt()
+	kind := jsonKindName(tree, jt)
+	mismatch := func() (Value, string) {
+		return nil, fmt.Sprintf("json: cannot unmarshal %s into Go value of type %s", kind, t)
+	}
+	if isRawMessage(t) {
+		return in.newBlob(tree), ""
+	}
+	switch u := t.Underlying().(type) {
+	case *types.Interface:
+		if u.NumMethods() != 0 {
+			in.unsupported("json model: decoding into non-empty interface %s", t)
+		}
+		return in.jsonGeneric(tree, useNumber), ""
+	case *types.Pointer:
+		if kind == "null" {
+			return PtrV{}, ""
+		}
+		var inner Value
+		if cp, ok := cur.(PtrV); ok && cp.R != nil {
+			inner = cp.R.Get()
+		} else {
+			inner = in.zero(u.Elem())
+		}
+		v, e := in.jsonDecode(tree, u.Elem(), inner, strict, useNumber)
+		if e != "" {
+			return nil, e
+		}
+		return PtrV{in.newCell(v)}, ""
+	}
+	if kind == "null" {
+		switch t.Underlying().(type) {
+		case *types.Map, *types.Slice:
+			return in.zero(t), ""
+		}
+		return cur, "" // null is a no-op for other kinds
+	}
+	switch u := t.Underlying().(type) {
+	case *types.Basic:
+		switch {
+		case u.Info()&types.IsString != 0:
+			if kind != "string" {
+				return mismatch()
+			}
+			return tree.V, ""
+		case u.Info()&types.IsBoolean != 0:
+			if kind != "bool" {
+				return mismatch()
+			}
+			return tree.V, ""
+		case u.Info()&types.IsInteger != 0:
+			if kind != "number" {
+				return mismatch()
+			}
+			ns := in.forceConc(tree.V.(*Str), "json number")
+			n, err := strconv.ParseInt(ns, 10, 64)
+			if err != nil {
+				return nil, fmt.Sprintf("json: cannot unmarshal number %s into Go value of type %s", ns, t)
+			}
+			w, _, _ := intWidth(u)
+			return IntV{tf.BV(w, uint64(n))}, ""
+		case u.Info()&types.IsFloat != 0:
+			if kind != "number" {
+				return mismatch()
+			}
+			f, _ := strconv.ParseFloat(in.forceConc(tree.V.(*Str), "json number"), 64)
+			return FloatV{Conc: f}, ""
+		}
+	case *types.Slice:
+		if kind != "array" {
+			return mismatch()
+		}
+		src := tree.V.(SliceV)
+		b := &Backing{E: make([]Value, src.Len)}
+		for i := 0; i < src.Len; i++ {
+			v, e := in.jsonDecode(src.B.E[src.Off+i].(Iface), u.Elem(), in.zero(u.Elem()), strict, useNumber)
+			if e != "" {
+				return nil, e
+			}
+			b.E[i] = v
+		}
+		return SliceV{B: b, Len: src.Len, Cap: src.Len}, ""
+	case *types.Map:
+		if kind != "object" {
+			return mismatch()
+		}
+		src := tree.V.(*MapV)
+		in.nextMap++
+		out := &MapV{KT: u.Key(), VT: u.Elem(), ID: in.nextMap}
+		if cm, ok := cur.(*MapV); ok && !cm.Nil {
+			out = cm
+		}
+		for _, e := range src.Entries {
+			if e.Deleted {
+				continue
+			}
+			v, er := in.jsonDecode(e.V.(Iface), u.Elem(), in.zero(u.Elem()), strict, useNumber)
+			if er != "" {
+				return nil, er
+			}
+			in.mapUpdate(out, e.K, v, &frame{fn: in.H.fn})
+		}
+		return out, ""
+	case *types.Struct:
+		if kind != "object" {
+			return mismatch()
+		}
+		sv, _ := copyValue(cur).(*StructV)
+		if sv == nil {
+			sv = in.zero(t).(*StructV)
+		}
+		src := tree.V.(*MapV)
+		for _, e := range src.Entries {
+			if e.Deleted {
+				continue
+			}
+			key := in.forceConc(e.K.(*Str), "json object key")
+			holder, idx, ft := in.jsonFindField(sv, u, key)
+			if holder == nil {
+				if strict {
+					return nil, fmt.Sprintf("json: unknown field %q", key)
+				}
+				continue
+			}
+			v, er := in.jsonDecode(e.V.(Iface), ft, holder.F[idx], strict, useNumber)
+			if er != "" {
+				return nil, er
+			}
+			holder.F[idx] = v
+		}
+		return sv, ""
+	}
+	in.unsupported("json model: decoding into %s", t)
+	return nil, ""
+}
+
+// jsonFindField: exact tag/name match first, then case-insensitive; embedded structs are searched.
+func (in *Interp) jsonFindField(sv *StructV, st *types.Struct, key string) (*StructV, int, types.Type) {
+	for pass := 0; pass < 2; pass++ {
+		for i := 0; i < st.NumFields(); i++ {
+			f := st.Field(i)
+			if !f.Exported() && !f.Embedded() {
+				continue
+			}
+			fi := parseJSONTag(f.Name(), st.Tag(i))
+			if fi.skip {
+				continue
+			}
+			if f.Embedded() && reflect.StructTag(st.Tag(i)).Get("json") == "" {
+				if est, ok := f.Type().Underlying().(*types.Struct); ok {
+					if h, idx, ft := in.jsonFindField(sv.F[i].(*StructV), est, key); h != nil {
+						return h, idx, ft
+					}
+					continue
+				}
+			}
+			if (pass == 0 && fi.name == key) || (pass == 1 && strings.EqualFold(fi.name, key)) {
+				return sv, i, f.Type()
+			}
+		}
+	}
+	return nil, 0, nil
+}
+
+// jsonGeneric: the tree as map[string]interface{} / []interface{} / string / float64 (or json.Number) / bool / nil.
+func (in *Interp) jsonGeneric(tree Iface, useNumber bool) Value {
+	jt := in.jt()
+	switch jsonKindName(tree, jt) {
+	case "null":
+		return Iface{}
+	case "number":
+		if useNumber {
+			return tree
+		}
+		f, _ := strconv.ParseFloat(in.forceConc(tree.V.(*Str), "json number"), 64)
+		return Iface{T: types.Typ[types.Float64], V: FloatV{Conc: f}}
+	case "array":
+		src := tree.V.(SliceV)
+		b := &Backing{E: make([]Value, src.Len)}
+		for i := 0; i < src.Len; i++ {
+			b.E[i] = in.jsonGeneric(src.B.E[src.Off+i].(Iface), useNumber)
+		}
+		return Iface{T: jt.slice, V: SliceV{B: b, Len: src.Len, Cap: src.Len}}
+	case "object":
+		src := tree.V.(*MapV)
+		in.nextMap++
+		out := &MapV{KT: jt.str, VT: jt.iface, ID: in.nextMap}
+		for _, e := range src.Entries {
+			if e.Deleted {
+				continue
+			}
+			out.seq++
+			out.Entries = append(out.Entries, &MapEntry{K: e.K, V: in.jsonGeneric(e.V.(Iface), useNumber), Seq: out.seq})
+		}
+		return Iface{T: jt.mapT, V: out}
+	}
+	return tree
 }
